@@ -65,7 +65,18 @@ def spec(T, abi, op, params):
     if op == "ctor_s": return params[0]
     if op == "ctor_r": return L(params[0])
     if op == "set_s": return params[1]
-    if op == "aligned_load_s": return ("%s i" % params[1]) if w == 32 else "lane64 %s i" % params[1]
+    if op in ("aligned_load_p", "load_pb"): return ("%s i" % params[1]) if w == 32 else "lane64 %s i" % params[1]
+    if op == "mask_load_pmb":
+        # masked load: an enabled lane comes from memory, a disabled lane keeps its value (bit i of the mask <-> lane i)
+        s_, a_, m_ = params[0], params[1], params[2]
+        return "(if (%s >>> i) %% 2 = 1 then %s else %s)" % (m_, L(a_), L(s_))
+    if op in ("store_pb", "aligned_store_p"):
+        return "MEM:(if i < %d then %s i else %s i)" % (N * (w // 32), params[0], params[1])
+    if op == "mask_store_pmb":
+        # masked store: exactly the enabled lanes are written, every other word of memory keeps its value
+        s_, a_, m_ = params[0], params[1], params[2]
+        lane = "i" if w == 32 else "i / 2"
+        return "MEM:(if i < %d ∧ (%s >>> (%s)) %% 2 = 1 then %s i else %s i)" % (N * (w // 32), m_, lane, s_, a_)
     if op == "reverse": return ("%s (%d - i)" if w == 32 else "lane64 %s (%d - i)") % (params[0], N - 1)
     if re.match(r"^set_s{2,}$", op) and len(params) == N + 1:
         # argument k lands in lane N-1-k (the order of _mm_set_*)
@@ -100,6 +111,9 @@ def cspec(T, abi, op, params):
         a, b = params; den = f("add", f("mul", re(b), re(b)), f("mul", im(b), im(b)))
         return (f("div", f("add", f("mul", re(a), re(b)), f("mul", im(a), im(b))), den),
                 f("div", f("sub", f("mul", im(a), re(b)), f("mul", re(a), im(b))), den))
+    if op == "rcp":      # 1/z = conj(z) / |z|^2
+        a, = params; den = f("add", f("mul", re(a), re(a)), f("mul", im(a), im(a)))
+        return f("div", re(a), den), "fneg%d (%s)" % (w, f("div", im(a), den))
     if op == "neg": a, = params; return "fneg%d (%s)" % (w, re(a)), "fneg%d (%s)" % (w, im(a))
     if op == "conj": a, = params; return re(a), "fneg%d (%s)" % (w, im(a))
     if op == "pos": a, = params; return re(a), im(a)
@@ -147,7 +161,7 @@ def main():
     isas = sys.argv[1:] or ["sse2", "avx2", "avx512"]
     for isa in isas:
         defs = parse_defs(os.path.join(GEN, "Simd_%s.lean" % isa))
-        lines = ["import FastorModel.Proofs.SimdLanes", "import FastorModel.Generated.Simd_%s" % isa, "import Mathlib.Tactic.IntervalCases",
+        lines = ["import FastorModel.Proofs.SimdLanes", "import FastorModel.Generated.Simd_%s" % isa, "import Mathlib.Tactic.IntervalCases", "import Mathlib.Tactic.SplitIfs",
                  "/-! GENERATED by tools/gen_c08_ops.py — lane theorems of C08 for the member definitions of configuration `%s`." % isa,
                  "    The statement of each theorem depends only on (element type, ABI, operation name): it is the specification.",
                  "    `lane i (v OP w) = lane i v OP lane i w`, scalar operands on the side they were written (`s - v` is `s - lane i v`). -/",
@@ -208,12 +222,20 @@ def main():
                 skipped.append(name); continue
             w = W[T]; N = BITS[abi] // w
             call = "%s.%s%s%s" % (isa, name, " fo" if has_fo else "", "".join(" " + p[0] for p in ps))
+            if rhs.startswith("MEM:"):
+                binder = "(fo : FOps) " + " ".join("(%s : %s)" % p for p in ps)
+                unf = ", ".join("%s.%s" % (isa, d) for d in closure(defs, name))
+                lines.append("theorem %s_%s_%s %s (i : Nat) :\n    (%s) i = %s := by" % (T, abi, op, binder.strip(), call, rhs[4:]))
+                lines.append("  by_cases h : i < %d <;> simp [simd, %s, h] <;> first | omega | (intro h1; omega) | skip" % (N * (w // 32), unf))
+                n += 1; continue
             lhs = ("(%s) i" % call) if w == 32 else "lane64 (%s) i" % call
             binder = "(fo : FOps) " + " ".join("(%s : %s)" % p for p in ps)
             unf = ", ".join("%s.%s" % (isa, d) for d in closure(defs, name))
             extra = "lane64, fneg32, fneg64, fabs32, fabs64, sign32, sign64, abs_by_sign, smin32, smax32, smin64, smax64"
             lines.append("theorem %s_%s_%s %s (i : Nat) (hi : i < %d) :\n    %s = %s := by" % (T, abi, op, binder.strip(), N, lhs, rhs))
-            if op == "abs" and T in ("float", "double"):
+            if op == "mask_load_pmb" and w == 64:
+                lines.append("  interval_cases i <;> simp [simd, %s, lane64] <;> split_ifs <;> simp_all" % unf)
+            elif op == "abs" and T in ("float", "double"):
                 lines.append("  first | (simp only [%s, andnot_si, zip32, set1_32, fabs32, sign32]; done) | (interval_cases i <;> simp [simd, %s, %s])" % (unf, unf, extra))
             else:
                 lines.append("  first | (simp [simd, %s]; done) | (simp [simd, %s, %s]; done) | (interval_cases i <;> simp [simd, %s, %s])" % (unf, unf, extra, unf, extra))
